@@ -35,14 +35,14 @@ impl File {
     /// TRUSTED (SQL select by name, insert-if-absent, re-select; name normalised relative to the project base):
     /// returns the row named norm_name(name); adds a fresh row when absent and allow_add.
     #[verifier::external_body]
-    pub fn from_name(ptx: &mut ProcessTransaction, name: &RedoPath, allow_add: bool) -> (ret: Result<File, RedoError>)
+    pub fn from_name<P: PathLike>(ptx: &mut ProcessTransaction, name: &P, allow_add: bool) -> (ret: Result<File, RedoError>)
         requires allow_add ==> old(ptx).tx_mode() != TxMode::Deferred || old(ptx).has_written(),
         ensures
             final(ptx).tx_mode() == old(ptx).tx_mode() && final(ptx).has_read() && (old(ptx).has_written() ==> final(ptx).has_written()),
             final(ptx).spec_env() == old(ptx).spec_env(), final(ptx)@.deps == old(ptx)@.deps,
             ret matches Ok(f) ==> {
                 &&& final(ptx)@.files.contains_key(f.id) && f.rec() == always_rule(final(ptx)@.files[f.id], old(ptx).spec_env().runid)
-                &&& f.name@ == norm_name(old(ptx).spec_env(), name@)
+                &&& f.name@ == norm_name(old(ptx).spec_env(), name.pview())
                 &&& (old(ptx)@.files.contains_key(f.id) ==> final(ptx)@.files == old(ptx)@.files)
                 &&& (!old(ptx)@.files.contains_key(f.id) ==> allow_add && final(ptx)@.files == old(ptx)@.files.insert(f.id, fresh_rec(f.name@)))
                 &&& (forall|i: i64| #[trigger] final(ptx)@.files.contains_key(i) && final(ptx)@.files[i].name == f.name@ ==> i == f.id)
